@@ -336,7 +336,12 @@ func maskStream(reqs []wire.Req, ref [][]byte, got []byte) []byte {
 	for j := range reqs {
 		l := len(ref[j])
 		if off+l > len(got) {
-			break
+			// a response that was cut (the kernel discarded the rest after a reset) still carries time
+			// fields in the part that did arrive: mask them at their positions too
+			part := got[off:]
+			padded := append(bytes.Clone(part), make([]byte, off+l-len(got))...)
+			out = append(out, maskTimes(reqs[j].Op, padded)[:len(part)]...)
+			return out
 		}
 		out = append(out, maskTimes(reqs[j].Op, got[off:off+l])...)
 		off += l
